@@ -36,6 +36,7 @@ type FileRun struct {
 	Pkg      string               `json:"pkg"`
 	File     string               `json:"file"`
 	Outcomes map[string]ModelObs  `json:"outcomes"` // checker -> observation (default variant)
+	Namesake map[string][]int     `json:"namesake"` // checker -> offsets of diagnostics the C20 oracle flags
 }
 
 // ModelObs is the observation compared with the Coq model.
@@ -237,7 +238,7 @@ func compute(tier string, seed int64, dir string) *Shared {
 	RunAll(all, variants, func(fr fileResult) {
 		st := TokenStarts(fr.file.Src)
 		starts[fr.file] = st
-		run := &FileRun{Pkg: fr.pkg.Name, File: fr.file.Name, Outcomes: map[string]ModelObs{}}
+		run := &FileRun{Pkg: fr.pkg.Name, File: fr.file.Name, Outcomes: map[string]ModelObs{}, Namesake: map[string][]int{}}
 		tf := Fset.File(fr.file.AST.Pos())
 		for i, out := range fr.outcomes {
 			v := variants[i]
@@ -277,6 +278,9 @@ func compute(tier string, seed int64, dir string) *Shared {
 					s.SubjectDiag[name]++
 					s.C20Checked++
 					if f20 := CheckC20(fr.pkg, fr.file, name, d); f20 != nil {
+						if v.Tag == "" {
+							run.Namesake[name] = append(run.Namesake[name], tf.Offset(d.Pos))
+						}
 						s.fail("C20", "C20/"+name+"/"+f20.Subject+"-namesake",
 							fmt.Sprintf("%s reports %q at %s although the callee spelled %s resolves to %s", name, clip(d.Text, 120), posStr(d.Pos), f20.Spelled, f20.Resolves),
 							map[string]interface{}{"package": fr.pkg.Name, "file": fr.file.Name, "checker": v.String(), "position": posStr(d.Pos),
